@@ -369,11 +369,19 @@ def run_oracle(prop, script_files, seed, tier, workdir):
     if not os.path.exists(exe):
         return [], {}, []
     procs = []
-    for f in script_files:
+    # the first file's oracle also runs the file-independent sweeps (cost sweep, pen sweep); it is
+    # started only after the others have finished so that CPU-time measurements are undisturbed
+    env_ns = dict(os.environ)
+    env_ns["VERIF_NO_SWEEP"] = "1"
+    for f in script_files[1:]:
         procs.append((f, subprocess.Popen([exe, prop, f, str(seed), tier], stdout=subprocess.PIPE,
-                                          stderr=subprocess.PIPE, text=True, errors="replace")))
+                                          stderr=subprocess.PIPE, text=True, errors="replace", env=env_ns)))
     fails, stats, known = [], {}, []
-    for f, p in procs:
+    first = True
+    for f, p in procs + [(script_files[0], None)] if script_files else []:
+        if p is None:
+            p = subprocess.Popen([exe, prop, f, str(seed), tier], stdout=subprocess.PIPE,
+                                 stderr=subprocess.PIPE, text=True, errors="replace")
         try:
             out, err = p.communicate(timeout=3000)
         except subprocess.TimeoutExpired:
@@ -392,7 +400,10 @@ def run_oracle(prop, script_files, seed, tier, workdir):
             elif line.startswith("OSTAT "):
                 parts = line.split(" ", 2)
                 try:
-                    stats[parts[1]] = stats.get(parts[1], 0) + int(parts[2])
+                    if parts[1].startswith(("slowest", "max_")):
+                        stats[parts[1]] = max(stats.get(parts[1], 0), int(parts[2]))
+                    else:
+                        stats[parts[1]] = stats.get(parts[1], 0) + int(parts[2])
                 except ValueError:
                     pass
     return fails, stats, known
